@@ -1,6 +1,7 @@
 package main
 
 import (
+	"syscall"
 	"context"
 	"encoding/json"
 	"fmt"
@@ -22,18 +23,31 @@ var fragments = []string{
 	"%token", "%left", "%right", "%nonassoc", "%type", "%union {", "%union", "%{", "%}", "%%", "%prec", "%start",
 	"<", ">", "A", "B", "'a'", "'ab", "'", "\"s\"", "\"", "1", "-", ":", "|", ";", "{x}", "{", "}",
 	"/*", "*/", "//", "\n", "$$", "$1", "$", "@", "\\",
+	// beyond ASCII: an Arabic-Indic digit, a Latin-1 letter, an invalid UTF-8 byte, NUL, carriage return
+	"\u0663", "\u00e9", "\xff", "\x00", "\r",
 }
 
 const textFuel = 10_000_000
+
+// fuelFor scales the budget with the input: terminating runs of this text
+// space use at most 470 loop iterations per input byte (+20), see
+// max_ticks_per_byte_terminating in the evidence; the budget is 53x that.
+func fuelFor(text string) int64 {
+	f := int64(25000) * int64(len(text)+20)
+	if f < 750_000 {
+		f = 750_000
+	}
+	return f
+}
 
 func init() {
 	register(&CheckDef{
 		ID:    "C13",
 		Level: "exploration",
-		Rule: "text space of the front end: (1) every sequence of at most 3 (quick) / 4 (thorough) fragments from a 38-piece lexical alphabet (directives, brackets, quotes, comment marks, identifiers, numbers, separators; joined by blanks), (2) every byte prefix of every corpus grammar file (repository examples + rendered families), (3) every single-token deletion, duplication and replacement by each alphabet fragment at every token position of every corpus file; each text goes through the real ParseAndBuild (and, when that succeeds, the Go and TypeScript generators and the debug listing) on the overlay build in which every loop iteration burns fuel; " +
-			"a run that exhausts 10M iterations, a spinning background goroutine or a runtime deadlock is a hang; every flagged text is confirmed on the native CLI binary (must still be running after 10 s); non-trivial = text that gets past the lexer's first token; distinct = distinct texts",
+		Rule: "text space of the front end: (1) every sequence of at most 3 (quick) / 4 (thorough) fragments from a 43-piece lexical alphabet (directives, brackets, quotes, comment marks, identifiers, numbers, separators; joined by blanks), (2) every byte prefix of every corpus grammar file (repository examples + rendered families), (3) every single-token deletion, duplication and replacement by each alphabet fragment at every token position of every corpus file; each text goes through the real ParseAndBuild (and, when that succeeds, the Go and TypeScript generators and the debug listing) on the overlay build in which every loop iteration burns fuel; " +
+			"a run that exhausts its fuel (25 000 loop iterations per input byte, at least 750 000), a spinning background goroutine or a runtime deadlock is a hang; every flagged text is confirmed on the native CLI binary (must still be running after 10 s); non-trivial = text that gets past the lexer's first token; distinct = distinct texts",
 		Assumptions: []string{
-			"fuel budget is at least 50x the largest consumption of any terminating run in the same space (reported as max_ticks_terminating); loops are instrumented by the overlay rewriter in all repository packages",
+			"fuel budget is at least 50x the largest consumption per input byte of any terminating run in the same space (reported as max_ticks_per_byte_terminating); loops are instrumented by the overlay rewriter in all repository packages",
 			"exhaustive refers to the fragment space / prefixes / single edits, not to all byte strings",
 		},
 		Work: func(w *Worker) { c13Work(w) },
@@ -128,8 +142,11 @@ func c13Work(w *Worker) {
 			cur = cur[:len(cur)-1]
 		}
 	}
+	t0 := time.Now()
 	rec()
-	w.Count("fragment_sequences_total", 0)
+	w.Max("phase_fragments_ms", time.Since(t0).Milliseconds())
+	t0 = time.Now()
+	defer func() { w.Max("phase_files_ms", time.Since(t0).Milliseconds()) }()
 	// (2) prefixes, (3) single edits
 	for _, f := range corpusFiles() {
 		for n := 0; n <= len(f.Text); n++ {
@@ -168,7 +185,8 @@ func c13Work(w *Worker) {
 
 func c13Eval(w *Worker, c *textCase) {
 	w.Count("evaluations", 1)
-	res := ygo.Build(c.Text, ygo.Options{Fuel: textFuel})
+	fuel := fuelFor(c.Text)
+	res := ygo.Build(c.Text, ygo.Options{Fuel: fuel})
 	hang := res.Fuel
 	path := "ParseAndBuild"
 	if res.OK() {
@@ -180,19 +198,21 @@ func c13Eval(w *Worker, c *textCase) {
 			if v == gen.TS {
 				lang = "typescript"
 			}
-			r2 := ygo.Generate(lang, c.Text, out, ygo.Options{Fuel: textFuel})
+			r2 := ygo.Generate(lang, c.Text, out, ygo.Options{Fuel: fuel})
 			os.Remove(out)
 			if r2.Fuel {
 				hang, path = true, "generate "+lang
 			}
 			w.Max("ticks_terminating", r2.Ticks)
+			w.Max("ticks_per_byte_terminating", r2.Ticks/int64(len(c.Text)+20))
 		}
-		r3 := ygo.Build(c.Text, ygo.Options{Fuel: textFuel, Debug: true})
+		r3 := ygo.Build(c.Text, ygo.Options{Fuel: fuel, Debug: true})
 		if r3.Fuel {
 			hang, path = true, "debug"
 		}
 	} else if !res.Fuel {
 		w.Max("ticks_terminating", res.Ticks)
+		w.Max("ticks_per_byte_terminating", res.Ticks/int64(len(c.Text)+20))
 		if !strings.Contains(res.Diag(), "not correct token") || res.Ticks > 60 {
 			w.Distinct(c.Text)
 		}
@@ -217,7 +237,7 @@ func c13Eval(w *Worker, c *textCase) {
 		}
 		nativeConfirmed++
 	}
-	w.Violate("C13|hang|"+c.Text, fmt.Sprintf("yaccgo does not terminate on this text (%s spins: %d loop iterations without finishing; the native `yaccgo generate go` is still running after 10 s): %q", path, textFuel, c.Text), c,
+	w.Violate("C13|hang|"+c.Text, fmt.Sprintf("yaccgo does not terminate on this text (%s spins: %d loop iterations without finishing; the native `yaccgo generate go` is still running after 10 s): %q", path, fuel, c.Text), c,
 		map[string]interface{}{"text": c.Text, "path": path})
 }
 
@@ -245,8 +265,11 @@ func nativeStillRunning(w *Worker, text string, d time.Duration) (bool, error) {
 	os.WriteFile(in, []byte(text), 0o644)
 	ctx, cancel := context.WithTimeout(context.Background(), d)
 	defer cancel()
-	cmd := exec.CommandContext(ctx, nativeBin, "generate", "go", in, filepath.Join(dir, "out.go"))
+	// `timeout` is a second safety net: even an orphaned run ends after 30 s
+	cmd := exec.CommandContext(ctx, "timeout", "-s", "KILL", "30", nativeBin, "generate", "go", in, filepath.Join(dir, "out.go"))
 	cmd.Dir = dir
+	// a spinning yaccgo must not outlive this worker
+	cmd.SysProcAttr = &syscall.SysProcAttr{Pdeathsig: syscall.SIGKILL}
 	cmd.Run()
 	return ctx.Err() == context.DeadlineExceeded, nil
 }
